@@ -12,7 +12,7 @@ import weakref
 import torch
 
 from vf.common import Obs, sub_seed, HarnessBug, Boom, BoomBase, WarnLog
-from vf import funcs, gen
+from vf import funcs, gen, c10_extra
 
 LEVEL = "fault_enumeration"
 TECHNIQUE = ("runtime fault injection at user-callback boundaries (crash-point enumeration from a counted clean run) with invariant "
@@ -30,12 +30,23 @@ RULE = ("case = (scenario, functional or history, representation, phase, crash-i
         "crash was reached (Boom observed) and the object snapshot contained at least one tensor, or (history scenarios) the history "
         "performed at least one substitution / flag change")
 RULE += ('; linop scenario also with operators composed of repeated building blocks (parameter list with repeated tensors)')
+RULE += ('; func_mixed: objects holding tensors of mixed dtypes / kinds in generated attribute order (vf/c10_extra.py), debug mode on and off; '
+         'there the object is compared also after a call that fails by itself (mechanism suffix call_failed)')
 MIN_NONTRIVIAL = {"quick": 300, "thorough": 1500}
-REQUIRED_COUNTERS = {"quick": {"base_exception_crashes": 100, "linop_composed_cases": 8, "crash_points_reached": 1500, "restore_events": 3000, "snapshots_compared": 2000},
-                     "thorough": {"base_exception_crashes": 1000, "linop_composed_cases": 40, "crash_points_reached": 15000, "restore_events": 30000, "snapshots_compared": 20000}}
+REQUIRED_COUNTERS = {"quick": {"base_exception_crashes": 100, "linop_composed_cases": 8, "crash_points_reached": 1500, "restore_events": 3000, "snapshots_compared": 2000,
+                               "mixed_calls_object_with_two_or_more_dtypes": 30, "mixed_debug_calls_nonfloat_tensor_ahead_of_float": 8,
+                               "mixed_debug_calls_tuple_held_tensor": 2, "mixed_backward_calls_none_registered_parameter": 3,
+                               "mixed_crash_points_reached": 60, "mixed_debug_crash_points_reached": 30},
+                     "thorough": {"base_exception_crashes": 1000, "linop_composed_cases": 40, "crash_points_reached": 15000, "restore_events": 30000, "snapshots_compared": 20000,
+                                  "mixed_calls_object_with_two_or_more_dtypes": 300, "mixed_debug_calls_nonfloat_tensor_ahead_of_float": 80,
+                                  "mixed_debug_calls_tuple_held_tensor": 20, "mixed_backward_calls_none_registered_parameter": 30,
+                                  "mixed_crash_points_reached": 1500, "mixed_debug_crash_points_reached": 600}}
 ASSUMPTIONS = ["single-threaded, seeded: the clean run and each injected run build identical objects from the same seed",
                "the snapshot ignores xitorch's own non-tensor caches on the object (_paramnames_, _unique_params_*, _number_of_params)",
-               "attribute order in a plain object's __dict__ is not compared; nn.Module._parameters order is"]
+               "attribute order in a plain object's __dict__ is not compared; nn.Module._parameters order is",
+               "func_mixed: 3 parameters + 1-4 additional tensors (complex64/128, int32/64, bool, float16/32, float64 constants, leaves that are not "
+               "parameters) held as attributes / in lists, dicts, tuples, plain sub-objects, inner nn.Modules (EditableModule family) or as registered "
+               "Parameters (also None), buffers, plain attributes, child modules (nn.Module family); tuple-held tensors are never listed as parameters"]
 BUDGET = {"quick": {"worker_timeout": 900, "case_timeout": 240}, "thorough": {"worker_timeout": 3400, "case_timeout": 900}}
 
 PHASES = ("fwd", "bwd", "bwd_cg", "bwd2")
@@ -122,6 +133,35 @@ def cases(seed, tier):
                 out.append({"group": "nested_functional", "outer": outer, "inner": inner, "phase": ph, "maxpts": 8 if quick else 50,
                             "seed": sub_seed(seed, "c10s", k)})
                 k += 1
+    # objects holding tensors of mixed dtypes / kinds (complex, integer, bool, float32/16 next to float64, tensors that are not parameters of
+    # the method) in generated attribute order and holders, debug mode on and off; `tuple`: an immutable container among the holders;
+    # `none`: nn.Module parameters registered as None
+    mixed_fn = ["quad:7", "rootfinder:broyden1", "equilibrium:anderson_acc", "solve_ivp:rk4", "minimize:broyden1", "jac:rmv", "hess:mv",
+                "mcquad:mh", "rootfinder:newton", "solve_ivp:rk45", "quad:20", "jacsolve:bicgstab"]
+    nmix = {"em_debug": 26, "em": 8, "em_tuple": 8, "nn": 10, "nn_none": 8} if quick else {"em_debug": 90, "em": 30, "em_tuple": 24, "nn": 36, "nn_none": 24}
+    for variant in ("em_debug", "em", "em_tuple", "nn", "nn_none"):
+        for i in range(nmix[variant]):
+            rng = random.Random(sub_seed(seed, "c10mixed", variant, i))
+            family = "nn" if variant.startswith("nn") else "em"
+            layout = c10_extra.gen_layout(rng, family, with_tuple=(variant == "em_tuple"), with_none=(variant == "nn_none"))
+            debug = variant == "em_debug" or (variant == "em_tuple" and rng.random() < 0.75)
+            fname = mixed_fn[(i + sub_seed(seed, "c10mixfn", variant)) % len(mixed_fn)]
+            ph = "fwd" if (debug and rng.random() < 0.6) else rng.choice(PHASES)
+            if variant == "nn_none":
+                # (parameters are substituted in the backward passes only; jac / hess products evaluate the function in the forward call only)
+                ph = rng.choice(PHASES[1:]) if ph == "fwd" else ph
+                while fname.startswith(("jac:", "hess:")):
+                    fname = rng.choice(mixed_fn)
+            elif fname.startswith(("jac:", "hess:")):
+                ph = "fwd"
+            rg = [1, 1, 1] if rng.random() < 0.5 else [int(rng.random() < 0.6) for _ in range(3)]
+            if not any(rg):
+                rg[rng.randrange(3)] = 1
+            out.append({"group": "func_mixed", "variant": variant, "functional": fname, "family": family, "layout": layout,
+                        "rep": c10_extra.rep_label(family, layout), "derived": family == "em" and rng.random() < 0.5,
+                        "list_real": rng.random() < 0.5, "order": rng.randrange(6), "phase": ph, "rg": rg, "debug": debug,
+                        "maxpts": 5 if quick else 16, "d": rng.choice([2, 3]), "s": 0.4, "seed": sub_seed(seed, "c10s", k)})
+            k += 1
     return out
 
 
@@ -148,12 +188,15 @@ def snapshot(objs):
             return
         if isinstance(o, torch.nn.Module):
             memo.add(id(o))
-            recs.append(("M", path, id(o), tuple(o._parameters.keys()), tuple(o._modules.keys())))
+            recs.append(("M", path, id(o), tuple(o._parameters.keys()), tuple(o._modules.keys()), tuple(o._buffers.keys())))
             for k, v in o._parameters.items():
                 if v is None:
                     recs.append(("V", path + "." + k, None))
                 else:
                     tens(path + "." + k, v)
+            for k, v in o._buffers.items():
+                if v is not None:
+                    tens(path + ".<buffer>" + k, v)
             for k, v in o._modules.items():
                 walk(path + "." + k, v, depth + 1)
             for k in sorted(o.__dict__):
@@ -201,6 +244,8 @@ def snapshot_diff(a, b):
                 return "registration", "tensor at %s changed type %s -> %s" % (ra[1], ra[3], rb[3])
             if ra[4] != rb[4]:
                 return "requires_grad", "tensor at %s changed requires_grad" % ra[1]
+            if ra[5].dtype != rb[5].dtype:
+                return "dtype", "tensor at %s changed dtype %s -> %s" % (ra[1], ra[5].dtype, rb[5].dtype)
             if ra[5].shape != rb[5].shape or not torch.equal(ra[5], rb[5]):
                 return "value", "tensor at %s changed value" % ra[1]
         elif ra[0] == "M":
@@ -390,6 +435,7 @@ def _func_run(desc, fail, obs, mech, clean):
     fname, rep, derived, d, s = desc["functional"], desc["rep"], desc["derived"], desc["d"], desc["s"]
     phase = desc["phase"]
     dtype = torch.float64
+    mixed = desc["group"] == "func_mixed"
     torch.manual_seed(desc["seed"])
     tg = torch.Generator().manual_seed(desc["seed"])
     is_mc = fname.startswith("mcquad")
@@ -399,8 +445,12 @@ def _func_run(desc, fail, obs, mech, clean):
         spy = CoreSpy(None)
         spy_f = _SubSpy(spy, funcs.core_mcf)
         spy_p = _SubSpy(spy, funcs.core_logp)
-        bf = funcs.build(rep, spy_f, 1, funcs.effective(lv["f"], derived), s)
-        bp = funcs.build(rep, spy_p, 1, funcs.effective(lv["p"], derived), s)
+        if mixed:
+            bf = c10_extra.build_layout(desc, spy_f, 1, funcs.effective(lv["f"], derived), s, dtype)
+            bp = c10_extra.build_layout(desc, spy_p, 1, funcs.effective(lv["p"], derived), s, dtype)
+        else:
+            bf = funcs.build(rep, spy_f, 1, funcs.effective(lv["f"], derived), s)
+            bp = funcs.build(rep, spy_p, 1, funcs.effective(lv["p"], derived), s)
         objs = [("f:" + n, o) for n, o in bf.objs] + [("p:" + n, o) for n, o in bp.objs]
         leaves = [lv["f"][k] for k in funcs.LEAF_NAMES] + [lv["p"][k] for k in funcs.LEAF_NAMES]
 
@@ -412,7 +462,10 @@ def _func_run(desc, fail, obs, mech, clean):
         spy = CoreSpy(F.core)
         # every third scenario injects a failure that is NOT derived from Exception (KeyboardInterrupt-like)
         spy.base_exc = desc["seed"] % 3 == 0
-        built = funcs.build(rep, spy, F.nlead, funcs.effective(lv, derived), s)
+        if mixed:
+            built = c10_extra.build_layout(desc, spy, F.nlead, funcs.effective(lv, derived), s, dtype)
+        else:
+            built = funcs.build(rep, spy, F.nlead, funcs.effective(lv, derived), s)
         objs = built.objs
         leaves = [lv[k] for k in funcs.LEAF_NAMES]
 
@@ -456,6 +509,13 @@ def _func_run(desc, fail, obs, mech, clean):
             raised = e
             if not _boom_in_chain(e):
                 if fail is None or not spy.fired:
+                    if mixed and clean:
+                        # the call fails by itself (xitorch rejects the object, or the function cannot run on what it was handed):
+                        # "after any functional call" - the caller's object is compared also then
+                        obs.count("mixed_calls_failed_by_themselves")
+                        _mixed_reach(obs, desc, snap0, dbg0, phase)
+                        check_after(obs, mech + ":call_failed", snap0, objs, reg, dbg0,
+                                    label + " [the call raised %s: %s]" % (type(e).__name__, str(e)[:80]))
                     xitorch.set_debug_mode(dbg_prev)
                     if clean:
                         return None, ntens, "%s: %s" % (type(e).__name__, str(e)[:200])
@@ -473,9 +533,29 @@ def _func_run(desc, fail, obs, mech, clean):
         if spy.fired:
             obs.count("crash_points_reached")
             obs.count("crash_%s" % fail[0])
+            if mixed:
+                obs.count("mixed_crash_points_reached")
+                if dbg0:
+                    obs.count("mixed_debug_crash_points_reached")
         else:
             obs.count("crash_points_not_reached")
+    elif mixed:
+        obs.count("mixed_clean_runs_completed")
+        _mixed_reach(obs, desc, snap0, dbg0, phase)
     return spy, ntens, None
+
+
+def _mixed_reach(obs, desc, snap0, dbg0, phase):
+    """reach counters of the mixed-dtype dimension: one count per un-injected call (completed or failed by itself) compared with its snapshot"""
+    dts = set(str(r[5].dtype) for r in snap0 if r[0] == "T")
+    if len(dts) >= 2:
+        obs.count("mixed_calls_object_with_two_or_more_dtypes")
+    if dbg0 and c10_extra.nonfloat_ahead_of_float(desc["layout"]):
+        obs.count("mixed_debug_calls_nonfloat_tensor_ahead_of_float")
+    if dbg0 and any(h == "tuple" for h, _ in desc["layout"]):
+        obs.count("mixed_debug_calls_tuple_held_tensor")
+    if "none" in c10_extra.layout_items(desc["layout"]) and phase != "fwd":
+        obs.count("mixed_backward_calls_none_registered_parameter")
 
 
 class _SubSpy(object):
@@ -859,7 +939,7 @@ def run_nested_functional(desc, obs):
 def run_case(desc):
     obs = Obs(desc)
     g = desc["group"]
-    if g in ("func", "func_debug"):
+    if g in ("func", "func_debug", "func_mixed"):
         run_func(desc, obs)
     elif g == "linop":
         run_linop(desc, obs)
